@@ -63,6 +63,8 @@ pub struct Prop {
     pub ref_sample: fn(Tier) -> usize,
     /// probes that must be non-zero, else the run is a harness error (coverage floor)
     pub required_probes: &'static [&'static str],
+    /// optional preparation step run once before the batch (e.g. ask the reference for inputs)
+    pub prepare: Option<fn(&Options) -> Result<(), String>>,
 }
 
 pub struct Options {
@@ -287,6 +289,12 @@ pub fn run_property(prop: &Prop, opt: &Options) -> i32 {
     let runs = opt.runs.unwrap_or_else(|| (prop.runs)(opt.tier));
     println!("frostsim property={} tier={} VERIF_SEED={} runs={} jobs={}", prop.id, opt.tier.name(), opt.seed, runs, opt.jobs);
     let known = load_known(&opt.verif_dir);
+    if let Some(prep) = prop.prepare {
+        if let Err(e) = prep(opt) {
+            println!("HARNESS-ERROR: {e}");
+            return 2;
+        }
+    }
     let next = AtomicU64::new(0);
     let stop = AtomicBool::new(false);
     let results: Mutex<BTreeMap<u64, PerRun>> = Mutex::new(BTreeMap::new());
